@@ -54,9 +54,10 @@ def tallyStep (win : Nat) (ws : List Win) : LEv → List Win
   | .allowed _ _ true => admitWin ws
   | _ => ws
 
-/-- Windows of level `k` (newest first) reconstructed from a level log given oldest first. -/
-def tally (win : Nat) (k : Key) (log : List LEv) : List Win :=
-  (log.filter (LEv.at k)).foldl (tallyStep win) []
+/-- Windows of level `k` (newest first) reconstructed from a level log given most recent first. -/
+def tally (win : Nat) (k : Key) : List LEv → List Win
+  | [] => []
+  | e :: older => if LEv.at k e then tallyStep win (tally win k older) e else tally win k older
 
 /-- Window starts (seconds), oldest first. -/
 def windowsOf (win : Nat) (k : Key) (log : List LEv) : List Nat :=
@@ -77,10 +78,11 @@ deriving Repr, DecidableEq
 
 abbrev History := List Obs   -- oldest first
 
-abbrev SSt := Key → List Win
+abbrev SSt := KMap (List Win)
 
-def SSt.init : SSt := fun _ => []
-def SSt.set (ss : SSt) (k : Key) (ws : List Win) : SSt := fun k' => if k' = k then ws else ss k'
+def SSt.init : SSt := []
+/-- The windows of level `k` so far, newest first. -/
+def SSt.at (ss : SSt) (k : Key) : List Win := KMap.get [] ss k
 
 /-- Charged arrivals in the window that is current for an arrival at `t` (0 when `t` opens a new one). -/
 def curCharged (win t : Nat) : List Win → Nat
@@ -98,15 +100,15 @@ def sInc (ss : SSt) : List (QId × QuotaCfg) → Nat → Hdrs → SSt
   | [], _, _ => ss
   | (a, c) :: rest, t, h =>
     let k := (a, groupOf c h)
-    if c.max < curCharged c.win t (ss k) + 1 then ss
-    else sInc (ss.set k (chargeWin c.win t (ss k))) rest t h
+    if c.max < curCharged c.win t (ss.at k) + 1 then ss
+    else sInc (ss.set k (chargeWin c.win t (ss.at k))) rest t h
 
 /-- A request let through counts in the current window of every level of its chain. -/
 def sAdmit (ss : SSt) : List (QId × QuotaCfg) → Hdrs → SSt
   | [], _ => ss
   | (a, c) :: rest, h =>
     let k := (a, groupOf c h)
-    sAdmit (ss.set k (admitWin (ss k))) rest h
+    sAdmit (ss.set k (admitWin (ss.at k))) rest h
 
 def sStep (cfg : Cfg) (ss : SSt) (o : Obs) : SSt :=
   match o.op.kind, o.ans with
@@ -138,7 +140,7 @@ def monotone : History → Bool
 
 /-- (i) Bound, checked on the levels the history touches. -/
 def boundAt (cfg : Cfg) (ss : SSt) (o : Obs) : Bool :=
-  (chain cfg o.op.q).all fun (a, c) => (ss (a, groupOf c o.op.h)).all fun w => decide (w.admitted ≤ c.max)
+  (chain cfg o.op.q).all fun (a, c) => (ss.at (a, groupOf c o.op.h)).all fun w => decide (w.admitted ≤ c.max)
 
 def boundHolds (cfg : Cfg) (h : History) : Bool :=
   let ss := sRun cfg SSt.init h
@@ -146,7 +148,7 @@ def boundHolds (cfg : Cfg) (h : History) : Bool :=
 
 /-- (ii) Spacing of the reconstructed windows. -/
 def spacedAt (cfg : Cfg) (ss : SSt) (o : Obs) : Bool :=
-  (chain cfg o.op.q).all fun (a, c) => spacedBy (c.win / nsPerSec) (ss (a, groupOf c o.op.h))
+  (chain cfg o.op.q).all fun (a, c) => spacedBy (c.win / nsPerSec) (ss.at (a, groupOf c o.op.h))
 
 def spacedHolds (cfg : Cfg) (h : History) : Bool :=
   let ss := sRun cfg SSt.init h
@@ -154,11 +156,11 @@ def spacedHolds (cfg : Cfg) (h : History) : Bool :=
 
 /-- Some quota of the chain has already let `max` requests through in its current window. -/
 def fullAdmitted (ss : SSt) (ch : List (QId × QuotaCfg)) (t : Nat) (h : Hdrs) : Bool :=
-  ch.any fun (a, c) => decide (c.max ≤ curAdmitted c.win t (ss (a, groupOf c h)))
+  ch.any fun (a, c) => decide (c.max ≤ curAdmitted c.win t (ss.at (a, groupOf c h)))
 
 /-- Some quota of the chain has already been charged `max` arrivals in its current window. -/
 def fullCharged (ss : SSt) (ch : List (QId × QuotaCfg)) (t : Nat) (h : Hdrs) : Bool :=
-  ch.any fun (a, c) => decide (c.max ≤ curCharged c.win t (ss (a, groupOf c h)))
+  ch.any fun (a, c) => decide (c.max ≤ curCharged c.win t (ss.at (a, groupOf c h)))
 
 /-- (iii) Exactness along a history: every refused limiter call meets `full` in the state before it. -/
 def exactFrom (cfg : Cfg) (full : SSt → List (QId × QuotaCfg) → Nat → Hdrs → Bool) : SSt → History → Bool
